@@ -22,7 +22,10 @@ class World:
         from TidalPy.structures import build_world, build_from_world
         from TidalPy.utilities.conversions import days2rads
         self.cfg, self.form = cfg, form
-        self.sync, self.obl_on, self.ctl = cfg["sync"], cfg["obl_on"], cfg["ctl"]
+        self.sync, self.obl_on, self.ctl = cfg["sync"], cfg["obl_on"], bool(cfg["ctl"])
+        # CTL law whose inputs are BOTH fixed_dt and fixed_q ('linear_simple_with_q'): a q id is then a (fixed_dt, fixed_q) pair and
+        # moving between ids changes one of the two, or both
+        self.withq = cfg["ctl"] == "withq"
         if not hasattr(World, "_star0"):
             World._star0 = build_world('55cnc')
             World._base = build_world('earth_simple')
@@ -33,6 +36,8 @@ class World:
         self.obl_vals = [w.obliquity if w.obliquity is not None else 0.0, 0.2, 0.5]
         self.n_vals = [w.orbital_frequency, days2rads(50.), days2rads(7.3)]
         self.q_vals = [w.fixed_dt, 100., 3000.] if self.ctl else [w.fixed_q, 50., 300.]
+        if self.withq:
+            self.q_vals = [(w.fixed_dt, w.fixed_q), (w.fixed_dt, 40.), (250., 40.)]
         # spin values: for a forced-synchronous world spin id i IS the mean motion of orb id i (the code copies it);
         # otherwise three frequencies away from every spin-orbit resonance of the l=2, e^2 mode set, where CPL/CTL
         # responses are discontinuous and a 1-ulp difference between input paths (period vs frequency) is amplified
@@ -49,6 +54,11 @@ class World:
     def tidecfg(self, qv):
         t = {'model': 'global_approx', 'fixed_q': 125.0, 'use_ctl': self.ctl, 'eccentricity_truncation_lvl': 2,
              'max_tidal_order_l': 2, 'obliquity_tides_on': self.obl_on}
+        if getattr(self, "withq", False):
+            t['ctl_calc_method'] = 'linear_simple_with_q'
+            if qv is not None:
+                t['fixed_dt'], t['fixed_q'] = qv
+            return t
         if qv is not None:
             t['fixed_dt' if self.ctl else 'fixed_q'] = qv
         return t
@@ -167,6 +177,24 @@ class World:
         elif act == "WorldSetObliquityDeferred":
             ob, = p
             w.set_obliquity(self.buf("obliquity", self.val(self.obl_vals, ob, "obl")), call_updates=False)
+        elif act in ("SetQ", "SetQDeferred") and self.withq:
+            nq = p[0]
+            path = p[1] if act == "SetQ" else "deferred"
+            dt, qq = self.q_vals[nq]
+            # change only what differs from the world's current values: a fixed_q change that is NOT followed by a fixed_dt change must be enough
+            for name, v in (("fixed_q", qq), ("fixed_dt", dt)):
+                if getattr(w, name) == v:
+                    continue
+                if path == "deferred":
+                    getattr(w, "set_" + name)(v, run_updates=False)
+                elif path == "world_prop":
+                    setattr(w, name, v)
+                elif path == "world_set":
+                    getattr(w, "set_" + name)(v)
+                elif path == "tides_set":
+                    getattr(w.tides, "set_" + name)(v)
+                else:
+                    w.tides.set_state(**{name: v})
         elif act == "SetQDeferred":
             nq, = p
             name = "fixed_dt" if self.ctl else "fixed_q"
@@ -201,7 +229,7 @@ class World:
             d['dspindt'] = w.calc_spin_derivative()
         except Exception:
             d['dspindt'] = None
-        d['fixed'] = w.fixed_dt if self.ctl else w.fixed_q
+        d['fixed'] = np.array([w.fixed_dt, w.fixed_q]) if self.withq else (w.fixed_dt if self.ctl else w.fixed_q)
         return d
 
     def expected(self, st):
@@ -230,8 +258,8 @@ class World:
         """The functional API evaluated at the same state (C13: 'and equals the functional API')."""
         from TidalPy.toolbox.quick_tides import quick_tidal_dissipation
         e, obl, orb, spin, q = st
-        if spin == NOSPIN:
-            return None
+        if spin == NOSPIN or self.withq:
+            return None          # (the functional API has no 'linear_simple_with_q' law)
         host = o.tidal_host
         kw = dict(rheology='ctl' if self.ctl else 'cpl', eccentricity=self.val(self.e_vals, e, "e"),
                   obliquity=self.val(self.obl_vals, obl, "obl"), orbital_frequency=self.val(self.n_vals, orb, "orb"),
